@@ -42,6 +42,10 @@ type txnCtx struct {
 
 // runTxn executes one transaction program on the primary and mirrors it into the model.
 func (w *World) runTxn(prog *TxnProg, exact bool) {
+	if prog.Direct && exact && len(prog.Ops) == 1 && !prog.Abort && (prog.Ops[0].Kind == "delete" || prog.Ops[0].Kind == "deletekey") {
+		w.runDirect(&prog.Ops[0])
+		return
+	}
 	tid := w.tid()
 	mt := &MTxn{Thread: tid, Failed: map[uint32]bool{}}
 	w.txns[tid] = mt
@@ -103,6 +107,78 @@ func (w *World) runTxn(prog *TxnProg, exact bool) {
 	default:
 		w.fail(violation("query-result", "Query returned unexpected error %v", err))
 	}
+}
+
+// runDirect issues one delete through the collection-level convenience call (single-client
+// worlds). The target may be a live row, or an offset/key that holds none: then the call
+// reports false / an error, nothing is emitted to the change stream and no trigger fires.
+func (w *World) runDirect(op *Op) {
+	tid := w.tid()
+	mt := &MTxn{Thread: tid, Failed: map[uint32]bool{}}
+	w.txns[tid] = mt
+	w.stats.Txns++
+	w.stats.Ops++
+	before := len(w.tap.Commits)
+	var off uint32
+	var live bool
+	what := ""
+	switch op.Kind {
+	case "delete":
+		x := &txnCtx{w: w, c: w.primary, mt: mt, exact: true}
+		switch op.Target.Mode {
+		case "dead":
+			// the lowest free offset, one right behind the last row, or one far out
+			free, ok := x.freeOffset(0)
+			cand := []uint32{uint32(64 * ((w.model.PeakFill+63)/64 + 2)), 1 << 22}
+			if ok {
+				cand = append(cand, free)
+			}
+			off = cand[op.Target.K%len(cand)]
+		default:
+			var ok bool
+			if off, ok = x.resolve(op.Target); !ok {
+				delete(w.txns, tid)
+				return
+			}
+		}
+		_, live = w.model.Rows[off]
+		if live {
+			mt.add(MOp{Kind: mDelete, Off: off})
+		}
+		what = fmt.Sprintf("Collection.DeleteAt(%d)", off)
+		if got := w.primary.DeleteAt(off); got != live {
+			w.fail(violation("delete-result", "%s=%v, a live row at that offset: %v", what, got, live))
+		}
+	case "deletekey":
+		off, live = w.model.KeyOf(op.Key)
+		if live {
+			mt.add(MOp{Kind: mDelete, Off: off})
+		}
+		what = fmt.Sprintf("Collection.DeleteKey(%q)", op.Key)
+		if err := w.primary.DeleteKey(op.Key); (err == nil) != live {
+			w.fail(violation("key/delete-result", "%s err=%v, key present: %v", what, err, live))
+		}
+	}
+	delete(w.txns, tid)
+	w.touched = append(w.touched[:0], off)
+	if w.viol != nil {
+		return
+	}
+	w.stats.probe("delete-through-collection-level-call")
+	if !live {
+		if n := len(w.tap.Commits) - before; n != 0 {
+			w.fail(violation("stream/commit-for-nothing", "%s found nothing to delete, yet %d commit(s) reached the change stream", what, n))
+		}
+		w.stats.probe("collection-level-delete-of-nothing")
+		return
+	}
+	w.stats.Commits++
+	for _, b := range mt.Blocks() {
+		if !mt.applied[b] {
+			w.applyBlock(mt, b)
+		}
+	}
+	w.model.Apply(mt)
 }
 
 var errClientPanic = errors.New("sim: client panic")
